@@ -153,7 +153,11 @@ class Exec(Interp):
             if not isinstance(stream, SStream):
                 raise Unsupported('preserve_stream_pos on non-stream')
             saved = stream.pos
-            self.block(s.body, fr)
+            try:
+                self.block(s.body, fr)
+            except (ReturnEx, BreakEx, ContinueEx):
+                stream.pos = saved       # a normal (non-exceptional) exit of the with body runs the code after `yield`
+                raise
             stream.pos = saved
             return
         v = self.ev(ce, fr)
